@@ -4,6 +4,7 @@ import (
 	"fmt"
 	"go/ast"
 	"go/token"
+	"go/types"
 	"regexp"
 	"strings"
 
@@ -97,7 +98,7 @@ func checkClientLocations(c *Ctx, ev *tmpl.Evaluator) {
 		{"IsQueryParam", `r\.SetQueryParam\(`}, {"IsPathParam", `r\.SetPathParam\(`}, {"IsHeaderParam", `r\.SetHeaderParam\(`}, {"IsFormParam", `r\.SetFormParam\(`},
 	} {
 		var scalar, array int
-		for _, oc := range l.Find(regexp.MustCompile(a.rx)) {
+		for _, oc := range l.Find(regexp.MustCompile(loosen(a.rx))) {
 			own := innermostPositive(oc.Guards, locs) == a.loc
 			isArr := innermostArrayPositive(oc.Guards)
 			if isArr {
@@ -269,9 +270,9 @@ func checkResponseDispatch(c *Ctx, ev *tmpl.Evaluator) {
 	ok := len(cs) == 1 && rangeGuard(cs[0].Guards, ".Responses")
 	c.Check(ok, rule, "clientResponse › ReadResponse › case per declared code", pos, "case .Code under range .Responses", "there is no `case {{ .Code }}` constructing the response of that code inside `range .Responses`: a declared status is not returned as its typed response")
 	// switch on the run-time code
-	c.Check(regexp.MustCompile(`switch response\.Code\(\) \{`).MatchString(l.Text), rule, "clientResponse › ReadResponse › switch on response.Code()", pos, "present", "the reader does not switch on response.Code()")
+	c.Check(regexp.MustCompile(loosen(`switch response\.Code\(\) \{`)).MatchString(l.Text), rule, "clientResponse › ReadResponse › switch on response.Code()", pos, "present", "the reader does not switch on response.Code()")
 	// success → (result, nil); else (nil, result)
-	r := regexp.MustCompile(`return result, nilnil, result`)
+	r := regexp.MustCompile(loosen(`return result, nilnil, result`))
 	loc := r.FindStringIndex(l.Text)
 	okS := false
 	why := "the per-code arm does not end in `return {{ if .IsSuccess }}result, nil{{ else }}nil, result{{ end }}`"
@@ -284,15 +285,15 @@ func checkResponseDispatch(c *Ctx, ev *tmpl.Evaluator) {
 	}
 	c.Check(okS, rule, "clientResponse › ReadResponse › success is the result, anything else the error", pos, "result,nil iff .IsSuccess", why)
 	// readResponse error propagated in both arms
-	n := len(regexp.MustCompile(`if err := result\.readResponse\(response, consumer, ⟦\$\.ReceiverName⟧\.formats\); err != nil \{\s*return nil, err\s*\}`).FindAllString(l.Text, -1))
+	n := len(regexp.MustCompile(loosen(`if err := result\.readResponse\(response, consumer, ⟦\$\.ReceiverName⟧\.formats\); err != nil \{\s*return nil, err\s*\}`)).FindAllString(l.Text, -1))
 	c.Check(n == 2, rule, "clientResponse › ReadResponse › read errors are returned", pos, "2 arms", fmt.Sprintf("%d of 2 arms return the error of readResponse", n))
 	// default arm
-	d := l.Find(regexp.MustCompile(`result := New⟦pascalize \.Name⟧\(response\.Code\(\)`))
+	d := l.Find(regexp.MustCompile(loosen(`result := New⟦pascalize \.Name⟧\(response\.Code\(\)`)))
 	okD := len(d) == 1 && tmpl.GuardHas(d[0].Guards, "DefaultResponse", +1)
 	c.Check(okD, rule, "clientResponse › ReadResponse › default response carries the run-time code", pos, "New…(response.Code())", "the default response is not constructed with response.Code() under .DefaultResponse")
-	okC := regexp.MustCompile(`if response\.Code\(\) ?/ ?100 == 2 \{\s*return result, nil\s*\}\s*return nil, result`).MatchString(l.Text)
+	okC := regexp.MustCompile(loosen(`if response\.Code\(\) ?/ ?100 == 2 \{\s*return result, nil\s*\}\s*return nil, result`)).MatchString(l.Text)
 	c.Check(okC, rule, "clientResponse › ReadResponse › default response classified by the run-time code", pos, "2xx → result", "the default arm does not return the response as result for 2xx codes and as error otherwise")
-	e := l.Find(regexp.MustCompile(`return nil, runtime\.NewAPIError\([^\n]*, response, response\.Code\(\)\)`))
+	e := l.Find(regexp.MustCompile(loosen(`return nil, runtime\.NewAPIError\([^\n]*, response, response\.Code\(\)\)`)))
 	okE := len(e) == 1 && guardKindMention(e[0].Guards, "else", "DefaultResponse")
 	c.Check(okE, rule, "clientResponse › ReadResponse › undeclared code is a generic API error with that code", pos, "runtime.NewAPIError(…, response, response.Code())", "without a default response an undeclared status is not reported as runtime.NewAPIError carrying response.Code()")
 	// Code() / IsCode of the typed response
@@ -323,60 +324,69 @@ func guardKindMention(gs []tmpl.Guard, kind, field string) bool {
 
 func checkResponseGo(c *Ctx, gen *packages.Package) {
 	rule := "C04.R3.responses"
-	c.Rule(rule, "every declared response becomes a GenResponse with its own code, classified as success iff the code is 2xx; the default response gets code -1 and is never a success", 6)
-	info := gen.TypesInfo
+	c.Rule(rule, "every declared response becomes a GenResponse with its own code, classified as success iff the code is 2xx; the default response gets code -1 and is never a success", 5)
+	var info *types.Info
 	fd := load.FuncDecl(gen, "codeGenOpBuilder.MakeOperation")
 	mr := load.FuncDecl(gen, "codeGenOpBuilder.MakeResponse")
 	if fd == nil || mr == nil {
 		c.Anchor(rule, "generator.codeGenOpBuilder.MakeOperation / MakeResponse", "not found")
 		return
 	}
-	// isSuccess := X.Code/100 == 2
-	okDef := false
-	ast.Inspect(fd.Body, func(n ast.Node) bool {
-		if as, ok := n.(*ast.AssignStmt); ok && len(as.Lhs) == 1 && goan.IsIdent(as.Lhs[0], "isSuccess") {
-			if be, ok := ast.Unparen(as.Rhs[0]).(*ast.BinaryExpr); ok && be.Op == token.EQL {
-				if q, ok := ast.Unparen(be.X).(*ast.BinaryExpr); ok && q.Op == token.QUO && goan.LastSel(q.X) == "Code" {
-					d, _ := goan.StringVal(info, q.Y)
-					_ = d
-					if goan.ExprString(q.Y) == "100" && goan.ExprString(be.Y) == "2" {
-						okDef = true
-					}
-				}
-			}
+	info = gen.TypesInfo
+	// the success flag and the code handed to MakeResponse, by parameter position
+	is2xx := func(e ast.Expr) bool {
+		e = goan.ResolveLocal(info, fd.Body, e)
+		be, ok := ast.Unparen(e).(*ast.BinaryExpr)
+		if !ok || be.Op != token.EQL {
+			return false
 		}
-		return true
-	})
-	c.Check(okDef, rule, "generator.codeGenOpBuilder.MakeOperation › isSuccess := v.Code/100 == 2", c.posOf(gen, fd.Pos()), "2xx", "success is no longer `code/100 == 2`: declared 2xx responses are returned as errors (or errors as results)")
-	// MakeResponse calls
-	nCalls := 0
+		q, ok := ast.Unparen(be.X).(*ast.BinaryExpr)
+		return ok && q.Op == token.QUO && goan.LastSel(q.X) == "Code" && goan.ExprString(q.Y) == "100" && goan.ExprString(be.Y) == "2"
+	}
+	nCalls, nDeclared := 0, 0
 	ast.Inspect(fd.Body, func(n ast.Node) bool {
 		call, ok := n.(*ast.CallExpr)
 		if !ok || goan.LastSel(call.Fun) != "MakeResponse" || len(call.Args) != 6 {
 			return true
 		}
 		nCalls++
-		succ, code := goan.ExprString(call.Args[2]), goan.ExprString(call.Args[4])
-		ok = succ == "isSuccess" && strings.HasSuffix(code, ".Code") || succ == "false" && code == "-1"
-		c.Check(ok, rule, fmt.Sprintf("generator.codeGenOpBuilder.MakeOperation › MakeResponse(isSuccess=%s, code=%s)", succ, code), c.posOf(gen, call.Pos()), "declared code with its classification, or default (-1, false)",
-			"a response is built with a code / success flag that is not its own")
+		succ, code := call.Args[2], call.Args[4]
+		cs := goan.ExprString(code)
+		switch {
+		case strings.HasSuffix(cs, ".Code"):
+			nDeclared++
+			c.Check(is2xx(succ), rule, "generator.codeGenOpBuilder.MakeOperation › declared response: success ⟸ Code/100 == 2", c.posOf(gen, call.Pos()), "2xx",
+				fmt.Sprintf("a declared response is classified by `%s` instead of `code/100 == 2`: a 2xx response is returned as an error, or another code as a result", goan.ExprString(goan.ResolveLocal(info, fd.Body, succ))))
+		case cs == "-1":
+			c.Check(goan.IsIdent(succ, "false"), rule, "generator.codeGenOpBuilder.MakeOperation › default response: code -1, never a success", c.posOf(gen, call.Pos()), "(false, -1)", "the default response is built as a success")
+		default:
+			c.Bad(rule, "generator.codeGenOpBuilder.MakeOperation › MakeResponse code "+cs, c.posOf(gen, call.Pos()), "a response is built with a code that is neither the declared one nor -1")
+		}
 		return true
 	})
-	if nCalls < 3 {
-		c.Unk(rule, "generator.codeGenOpBuilder.MakeOperation › MakeResponse calls", c.posOf(gen, fd.Pos()), fmt.Sprintf("%d calls found, expected 3", nCalls))
+	if nCalls < 3 || nDeclared < 1 {
+		c.Unk(rule, "generator.codeGenOpBuilder.MakeOperation › MakeResponse calls", c.posOf(gen, fd.Pos()), fmt.Sprintf("%d calls found (%d for declared codes), expected 3 (1)", nCalls, nDeclared))
 	}
-	// GenResponse literal
+	// GenResponse literal: IsSuccess and Code are MakeResponse's third and fifth parameters
+	var params []types.Object
+	for _, fl := range mr.Type.Params.List {
+		for _, nm := range fl.Names {
+			params = append(params, info.Defs[nm])
+		}
+	}
 	ast.Inspect(mr.Body, func(n ast.Node) bool {
 		cl, ok := n.(*ast.CompositeLit)
-		if !ok || goan.NamedName(info.TypeOf(cl)) != "GenResponse" || len(cl.Elts) < 4 {
+		if !ok || goan.NamedName(info.TypeOf(cl)) != "GenResponse" || len(cl.Elts) < 4 || len(params) < 5 {
 			return true
 		}
-		for f, w := range map[string]string{"IsSuccess": "isSuccess", "Code": "code"} {
+		for f, ix := range map[string]int{"IsSuccess": 2, "Code": 4} {
+			v := goan.Field(cl, f)
+			ok := v != nil && identIs(info, goan.ResolveLocal(info, mr.Body, v), params[ix])
 			got := ""
-			if v := goan.Field(cl, f); v != nil {
-				got = goan.ExprString(goan.ResolveLocal(info, mr.Body, v))
+			if v != nil {
+				got = goan.ExprString(v)
 			}
-			c.Check(got == w, rule, "generator.codeGenOpBuilder.MakeResponse › GenResponse."+f+" = "+w, c.posOf(gen, cl.Pos()), "copied from the argument", fmt.Sprintf("GenResponse.%s is %q", f, got))
+			c.Check(ok, rule, fmt.Sprintf("generator.codeGenOpBuilder.MakeResponse › GenResponse.%s is parameter #%d", f, ix+1), c.posOf(gen, cl.Pos()), "copied from the argument", fmt.Sprintf("GenResponse.%s is %q, not the value the caller passed", f, got))
 		}
 		return false
 	})
